@@ -243,4 +243,85 @@ example : (push demoG { demoV with gsIndex := 0 } demoRec true demoChain false t
 example : (push demoG demoV demoRec true demoChain false false).res = .full := by decide
 example : (push (push demoG demoV demoRec true demoChain false false).st demoV demoRec false demoChain false true).res = .queued := by decide
 
+/-! ## Concurrent lookups while sets are appended (fine-grained model `Whv.Explorer.Fine`) -/
+section Interleaving
+open Whv.Explorer.Fine
+
+/-- Start of a concurrent run: the invariant holds, nobody holds the lock, every goroutine (there may be
+infinitely many) is about to start its operation — a lookup `get i` or a refresh `refresh b` (read `current`,
+fetch `[current+1 .. b]` from the chain, `updateGuardianSets`) with `uint32` arguments. -/
+structure Init (s : Sys) : Prop where
+  inv : Inv s.cur s.list
+  lock : s.lock = none
+  idle : ∀ k, (s.threads k).pc = .idle
+  bound : ∀ k, OpBound (s.threads k).op
+
+private theorem init_J (cfg : Cfg) (s : Sys) (h : Init s) : J cfg s where
+  owner := fun k => by rw [h.idle k, h.lock]; exact ⟨(fun c => c.elim), (fun e => by cases e)⟩
+  free := fun _ => h.inv
+  held := fun k e => by rw [h.lock] at e; cases e
+  setsF := fun k sets e => by rw [h.idle k] at e; cases e
+  setsL := fun k sets e => by rw [h.idle k] at e; cases e
+  reading := fun k c e => by rw [h.idle k] at e; cases e
+  res := fun k i r _ e => by rw [h.idle k] at e; cases e
+  bound := h.bound
+
+/-- **Interleaving safety (repaired code).** With the reads of `currentGuardianSetIndex` / `guardianSetLists`
+taken under `gs.lock` (either order of the two writes), for every chain, every set of goroutines and **every
+schedule**: whenever the lock is free the index invariant holds, and every finished lookup `get i` has not
+panicked and, if it returned a set, returned the set with index `i` — also while other goroutines are in the
+middle of appending newer sets. -/
+theorem c19_interleaving_safe (cfg : Cfg) (hlr : cfg.lockedReads = true) (chain : Nat → Option (List Addr))
+    (s₀ : Sys) (h : Init s₀) (sched : List Nat) :
+    ((run cfg chain s₀ sched).lock = none → Inv (run cfg chain s₀ sched).cur (run cfg chain s₀ sched).list) ∧
+    ∀ k i r, ((run cfg chain s₀ sched).threads k).op = .get i → ((run cfg chain s₀ sched).threads k).pc = .done r →
+      r ≠ .panic ∧ ∀ x, r = .ok x → x.index = i := by
+  have hJ := run_preserves chain hlr sched s₀ (init_J cfg s₀ h)
+  refine ⟨hJ.free, fun k i r ho hp => ?_⟩
+  have := hJ.res k i r ho hp
+  cases r with
+  | ok x => exact ⟨by simp, fun y e => by cases e; exact this⟩
+  | miss => exact ⟨by simp, fun y e => by cases e⟩
+  | unit => exact ⟨by simp, fun y e => by cases e⟩
+  | panic => exact this.elim
+
+/-- The instance for the code as repaired by `fixes/C19-guardian-set-read-lock.diff`. -/
+theorem c19_interleaving_safe_repaired (chain : Nat → Option (List Addr)) (s₀ : Sys) (h : Init s₀) (sched : List Nat)
+    (k i : Nat) (r : Res) (ho : ((run repaired chain s₀ sched).threads k).op = .get i)
+    (hp : ((run repaired chain s₀ sched).threads k).pc = .done r) : r ≠ .panic ∧ ∀ x, r = .ok x → x.index = i :=
+  (c19_interleaving_safe repaired rfl chain s₀ h sched).2 k i r ho hp
+
+/-- One guardian set known; goroutine 0 refreshes up to index 1, goroutine 1 looks up index 1. -/
+def wSys : Sys := ⟨0, [⟨0, some [kA]⟩], none, fun k => if k = 0 then ⟨.refresh 1, .idle⟩ else ⟨.get 1, .idle⟩⟩
+def wChain : Nat → Option (List Addr) := fun _ => some [kB]
+/-- refresh: read+fetch, Lock, first write (index := 1) — then the lookup reads the index, then the list. -/
+def wSched : List Nat := [0, 0, 0, 1, 1]
+
+private theorem wSys_init : Init wSys where
+  inv := ⟨by decide, ⟨rfl, trivial⟩, by decide, by decide⟩
+  lock := rfl
+  idle := fun k => by unfold wSys; by_cases h : k = 0 <;> simp [h]
+  bound := fun k => by unfold wSys; by_cases h : k = 0 <;> simp [h, OpBound, two32]
+
+/-- **Interleaving witness (pinned code).** The pinned code — unlocked reads, index published before the
+append — violates the statement: in the schedule `wSched` the lookup of index 1 runs between the two writes
+of the update, finds `1 <= current` and indexes a list that still has one element: a panic
+(`index out of range [1] with length 1`, exactly what the harness observes). -/
+theorem c19_interleaving_witness :
+    ¬ (∀ (chain : Nat → Option (List Addr)) (s₀ : Sys) (_ : Init s₀) (sched : List Nat) (k i : Nat) (r : Res),
+        ((run pinned chain s₀ sched).threads k).op = .get i → ((run pinned chain s₀ sched).threads k).pc = .done r →
+        r ≠ .panic ∧ ∀ x, r = .ok x → x.index = i) := by
+  intro h
+  have := h wChain wSys wSys_init wSched 1 1 .panic (by decide) (by decide)
+  exact this.1 rfl
+
+-- the same schedule on the repaired code: the lookup is blocked while the update holds the lock …
+example : ((run repaired wChain wSys wSched).threads 1).pc = .idle := by decide
+-- … and once the update is through it returns set 1
+example : ((run repaired wChain wSys (wSched ++ [0, 0, 1, 1])).threads 1).pc = .done (.ok ⟨1, some [kB]⟩) := by decide
+-- a schedule in which the pinned code happens to behave
+example : ((run pinned wChain wSys [0, 0, 0, 0, 0, 1, 1]).threads 1).pc = .done (.ok ⟨1, some [kB]⟩) := by decide
+
+end Interleaving
+
 end Whv.C19
